@@ -20,7 +20,7 @@ Used as a module by /verif/c20/run.py; `python3 obligations.py quick|thorough` r
 import json, os, re, subprocess, sys, time
 
 REPO = "/repo"
-CRATE = "/verif/obligations"
+CRATE = os.path.join(os.path.dirname(os.path.dirname(os.path.abspath(__file__))), "obligations")
 
 VALUE_FEATURES = [
     "hashable-value", "postgres-array", "postgres-vector", "postgres-interval", "with-chrono",
